@@ -1499,6 +1499,13 @@ def reachable_sites(body, g, sites, valuation, limit=300):
         for tg, ats in paths_to(body, 0, {bb}, g=g, limit=limit):
             ok = True
             for a in ats:
+                if a[0] in ("variant", "notvariant"):
+                    # which variant an opaque Option / enum value has: valuation(("discr", term)) -> variant index
+                    dv = valuation(("discr", strip(norm(a[1], g))))
+                    if dv is not None and ((a[0] == "variant" and dv != a[2]) or (a[0] == "notvariant" and dv in a[2])):
+                        ok = False
+                        break
+                    continue
                 if is_ovf_atom(a) or a[0] not in ("rel", "bool"):
                     continue
                 a = atom_norm(a, g)
@@ -1533,8 +1540,33 @@ def chamber_tables(ctx, rule, body, g, fill=0):
         n += 1
         ln = eval_term_env(unov_deep(fold_std_ops(a[1])), {y: 7 for y in szs})
         fv = eval_int(a[0])
-        ok = ln == 8 and fv == fill
+        ok = ln == 8 and (fill is None or fv == fill)
         ctx.ob(rule, b.name, "vec![%s; size() + 1]" % fill, "ok" if ok else "violation",
                "a chamber-indexed table has size() + 1 slots filled with %s" % fill if ok else
                "a chamber-indexed table is created with %s slots (for size 7) filled with %s: it must have size() + 1 = 8 slots (chambers are numbered from 1) filled with %s (= no entry yet)" % (ln, fv, fill), b.span_of(bi))
     return n
+
+
+
+def bool_results(body, g, valuation):
+    """the set of values a bool-returning function can return under a valuation of its opaque sub-terms (see reachable_sites); a returned
+    expression is evaluated with the same valuation, None in the set = a return whose value is not fixed by the valuation"""
+    rets = {}
+    for bi, si, s in body.assigns():
+        if s["place"]["l"] == 0 and not s["place"]["p"]:
+            rets[bi] = strip(norm(body.rv_origin(s["rv"]), g))
+    for bi, t in body.calls():
+        if t["dest"]["l"] == 0 and not t["dest"]["p"]:
+            rets[bi] = ("call", t["callee"].get("def", "?"), tuple(strip(norm(body.origin(a), g)) for a in t["args"]))
+    out = set()
+    for bi in reachable_sites(body, g, set(rets), valuation):
+        t = rets[bi]
+        env = {}
+        for y in subterms(t):
+            if isinstance(y, tuple) and y:
+                v = valuation(y)
+                if v is not None:
+                    env[y] = v
+        v = eval_term_env(fold_std_ops(t), env)
+        out.add(None if v is None else bool(v))
+    return out
